@@ -690,4 +690,609 @@ theorem idx_unreach {α} (l : List α) (iv : Val) (i : Nat) (h : indexArg iv l.l
   rw [List.getElem?_eq_none_iff] at hn
   omega
 
+theorem ptot_resolveIndex (v i : Val) (s : Option Bytes) : PTot (resolveIndex v i s) := by
+  have h := ptot_indexArg
+  unfold resolveIndex; ptot_tac [h]
+  all_goals (exfalso; exact idx_unreach _ _ _ (by assumption) (by assumption))
+
+theorem ptot_checkEquality (a c : Val) : PTot (checkEquality a c) := by
+  have h1 := ptot_toInt; have h2 := ptot_toUint; have h3 := ptot_toFloat
+  unfold checkEquality; ptot_tac [h1, h2, h3]
+
+theorem ptot_evalAdditive (l1 l2 l3 : Loc) (p : Bool) (a : Option Val) (c : Val) :
+    PTot (evalAdditive l1 l2 l3 p a c) := by
+  have h1 := ptot_toInt; have h2 := ptot_toUint; have h3 := ptot_toFloat
+  unfold evalAdditive; ptot_tac [h1, h2, h3]
+
+theorem ptot_evalNumericComparative (l : Loc) (op : Tok) (a c : Val) :
+    PTot (evalNumericComparative l op a c) := by
+  have h1 := ptot_toInt; have h2 := ptot_toUint; have h3 := ptot_toFloat
+  unfold evalNumericComparative; ptot_tac [h1, h2, h3]
+
+/-- the two `unreachable` sites of the multiplicative operators: promotion is only asked for when
+    the right side is a float, and the parser only builds `*`, `/`, `%` nodes -/
+theorem ptot_evalMultiplicative (l1 l2 : Loc) (op : Tok) (a c : Val) (hop : MulOp op) :
+    PTot (evalMultiplicative l1 l2 op a c) := by
+  have h1 := ptot_toInt; have h2 := ptot_toUint; have h3 := ptot_toFloat
+  unfold evalMultiplicative
+  ptot_tac [h1, h2, h3]
+  all_goals (exfalso; first
+    | (rcases hop with rfl | rfl | rfl <;> simp_all; done)
+    | (cases c <;> simp_all [isFloatV]; done))
+
+theorem ptot_convertArg (t : Ty) (v : Val) : PTot (convertArg t v) := by unfold convertArg; ptot_tac
+theorem ptot_convArg (t : Ty) (v : Val) (w : String) : PTot (convArg t v w) := by
+  have h := ptot_convertArg
+  unfold convArg; ptot_tac [h]
+theorem ptot_parseIntoInt (v : Val) : PTot (parseIntoInt v) := by unfold parseIntoInt; ptot_tac
+theorem ptot_apiName (v : Val) : PTot (apiName v) := by unfold apiName; ptot_tac
+theorem ptot_lenOf (v : Val) : PTot (applyJetFunc.lenOf v) := by unfold applyJetFunc.lenOf; ptot_tac
+theorem ptot_notNilP (v : Val) : PTot (notNilP v) := by unfold notNilP; ptot_tac
+theorem ptot_getSibling (env : Env) (a c : Bytes) : PTot (getSibling env a c) := by unfold getSibling; ptot_tac
+theorem ptot_getRanger (v : Val) : PTot (getRanger v) := by unfold getRanger; ptot_tac
+
+theorem ptot_evalFieldPath (loc : Loc) : ∀ (fs : List Bytes) (v : Val), PTot (evalFieldPath loc v fs) := by
+  intro fs
+  induction fs with
+  | nil => intro v; unfold evalFieldPath; exact ptot_pure _
+  | cons f rest ih =>
+    intro v
+    unfold evalFieldPath
+    have hr := ptot_resolveIndex v .invalid (some f)
+    split
+    · intro s h; cases h
+    · rename_i x hx
+      intro s h
+      cases h
+      exact hr s hx
+    · ptot_tac [ih]
+
+theorem ptot_evalChainFields : ∀ (fs : List Bytes) (v : Val), PTot (evalChainFields v fs) := by
+  have hr := ptot_resolveIndex
+  intro fs
+  induction fs with
+  | nil => intro v; unfold evalChainFields; exact ptot_pure _
+  | cons f rest ih =>
+    intro v
+    cases rest with
+    | nil => unfold evalChainFields; ptot_tac [hr]
+    | cons g rest => unfold evalChainFields; ptot_tac [hr, ih]
+
+theorem ptot_isSetFieldPath : ∀ (fs : List Bytes) (v : Val), PTot (isSetFieldPath v fs) := by
+  have hr := ptot_resolveIndex
+  have hn := ptot_notNilP
+  intro fs
+  induction fs with
+  | nil => intro v; unfold isSetFieldPath; exact ptot_pure _
+  | cons f rest ih => intro v; unfold isSetFieldPath; ptot_tac [hr, hn, ih]
+
+/-! #### converted arguments have the parameter's kind -/
+
+/-- what `convertArg` hands to a `string` / `int` parameter -/
+def TyOk : Ty → Val → Prop
+  | .string, v => ∃ s, v = .str s
+  | .int, v => ∃ i, v = .int i
+  | _, _ => True
+
+theorem convertArg_typed (t : Ty) (v x : Val) (h : convertArg t v = .ok (some x)) : TyOk t x := by
+  unfold convertArg at h
+  split at h
+  all_goals first
+    | (cases h; done)
+    | (cases h; simp [TyOk]; done)
+    | (rename_i f; cases hf : floatToInt f <;> rw [hf] at h <;> cases h; simp [TyOk]; done)
+    | skip
+
+theorem convArg_typed (t : Ty) (v x : Val) (w : String) (h : convArg t v w = .ok (.ok x)) : TyOk t x := by
+  unfold convArg at h
+  split at h
+  · cases h
+  · cases hc : convertArg t v with
+    | error e => rw [hc] at h; cases h
+    | ok o =>
+      rw [hc] at h
+      cases o with
+      | none => cases h
+      | some y => cases h; exact convertArg_typed _ _ _ hc
+
+/-- every argument has the kind of its parameter -/
+def Typed (sig : Sig) (args : List Val) : Prop :=
+  ∀ i v t, args[i]? = some v → sig.tyAt i = some t → TyOk t v
+
+theorem mem_getElem?_cons {α} (x : α) (xs : List α) (v : α) (h : v ∈ xs) : ∃ i, (x :: xs)[i + 1]? = some v := by
+  obtain ⟨i, hi⟩ := List.mem_iff_getElem?.mp h
+  exact ⟨i, by simpa using hi⟩
+
+theorem tyAt_variadic (t : Ty) (i : Nat) : Sig.tyAt ⟨[], some t⟩ i = some t := by
+  simp [Sig.tyAt]
+
+theorem tyAt_cat (i : Nat) : Sig.tyAt ⟨[.string], some .string⟩ i = some .string := by
+  cases i <;> simp [Sig.tyAt]
+
+set_option maxHeartbeats 1600000 in
+/-- the `unreachable cat arg` / `unreachable sum arg` sites: the arguments were converted to the
+    parameter types.  What is left is `strings.Repeat`'s own panic. -/
+theorem ptot_applyGoFunc (id : String) (args : List Val)
+    (h : ∀ sig, goFuncSig id = some sig → Typed sig args) : PTot (applyGoFunc id args) := by
+  unfold applyGoFunc
+  split
+  all_goals try (ptot_tac; done)
+  · -- cat
+    rename_i a rest
+    have ht := h _ (by simp [goFuncSig] : goFuncSig "cat" = some ⟨[.string], some .string⟩)
+    apply ptot_bind
+    · apply ptot_foldlM
+      intro acc v hv
+      obtain ⟨i, hi⟩ := mem_getElem?_cons (.str a) rest v hv
+      obtain ⟨s, rfl⟩ := ht (i + 1) v .string hi (tyAt_cat _)
+      exact ptot_pure _
+    · intro _ _; exact ptot_pure _
+  · -- sum
+    rename_i xs
+    have ht := h _ (by simp [goFuncSig] : goFuncSig "sum" = some ⟨[], some .int⟩)
+    apply ptot_bind
+    · apply ptot_foldlM
+      intro acc v hv
+      obtain ⟨i, hi⟩ := List.mem_iff_getElem?.mp hv
+      obtain ⟨s, rfl⟩ := ht i v .int hi (tyAt_variadic _ _)
+      exact ptot_pure _
+    · intro _ _; exact ptot_pure _
+
+/-- the `unreachable Cat arg` site -/
+theorem ptot_applyMethod (name : String) (recv : Val) (args : List Val)
+    (h : ∀ sig, methodSig name = some sig → Typed sig args) : PTot (applyMethod name recv args) := by
+  unfold applyMethod
+  ptot_tac
+  -- Cat
+  have ht := h _ (by simp [methodSig] : methodSig "Cat" = some ⟨[], some .string⟩)
+  apply ptot_mapM
+  intro v hv
+  obtain ⟨i, hi⟩ := List.mem_iff_getElem?.mp hv
+  obtain ⟨s, rfl⟩ := ht i v .string hi (tyAt_variadic _ _)
+  exact ptot_pure _
+
+/-! ### templates handed out by the loader are well-formed -/
+
+theorem canonicalOf_wf {env : Env} (he : EnvWf env) (p n : Bytes) (t : Tmpl)
+    (h : canonicalOf env p = some (n, some t)) : TmplWf t := by
+  unfold canonicalOf at h
+  obtain ⟨ext, _, hx⟩ := List.exists_of_findSome?_eq_some h
+  split at hx
+  · rename_i n' t' hf
+    cases hx
+    exact he _ (List.mem_of_find?_eq_some hf) t rfl
+  · cases hx
+
+theorem getSibling_wf {env : Env} (he : EnvWf env) (a c : Bytes) (t : Tmpl)
+    (h : getSibling env a c = .ok t) : TmplWf t := by
+  unfold getSibling at h
+  dsimp only at h
+  split at h
+  · cases h
+  · cases h
+  · rename_i n t' hc
+    cases h
+    exact canonicalOf_wf he _ _ _ hc
+
+theorem findTmpl_wf {env : Env} (he : EnvWf env) (n : Bytes) (t : Tmpl) (h : findTmpl env n = some t) :
+    TmplWf t := by
+  unfold findTmpl at h
+  split at h
+  · rename_i n' t' hf
+    cases h
+    exact he _ (List.mem_of_find?_eq_some hf) t rfl
+  · cases h
+
+theorem rootOf_wf {env : Env} (he : EnvWf env) : ∀ (n : Nat) (t root : Tmpl), TmplWf t →
+    rootOf env n t = some root → TmplWf root := by
+  intro n
+  induction n with
+  | zero => intro t root _ h; simp [rootOf] at h
+  | succ n ih =>
+    intro t root ht h
+    unfold rootOf at h
+    split at h
+    · cases h; exact ht
+    · split at h
+      · rename_i p hp
+        exact ih p root (findTmpl_wf he _ _ hp) h
+      · cases h
+
+/-! ### the evaluator, function by function -/
+
+theorem tot_liftP {α} (p : P α) (hp : PTot p) : Tot (liftP p) := by
+  refine ⟨fun rt h => ?_⟩
+  unfold liftP
+  cases p with
+  | ok a => exact ⟨h, trivial⟩
+  | error f =>
+    cases f with
+    | err e => exact h
+    | crash s => exact ⟨hp s rfl, h⟩
+    | unsupported w => trivial
+
+theorem totq_liftP {α} {Q : α → Prop} (p : P α) (hp : PTot p) (hq : ∀ a, p = .ok a → Q a) : TotQ Q (liftP p) := by
+  refine ⟨fun rt h => ?_⟩
+  unfold liftP
+  cases p with
+  | ok a => exact ⟨h, hq a rfl⟩
+  | error f =>
+    cases f with
+    | err e => exact h
+    | crash s => exact ⟨hp s rfl, h⟩
+    | unsupported w => trivial
+
+/-- the hypothesis on one level of the open recursion -/
+structure RecTot (env : Env) (r : Rec) : Prop where
+  evalExpr : ∀ e, ExprWf e → Tot (r.evalExpr env e)
+  execList : ∀ l, StmtsWf l → Tot (r.execList env l)
+  isSetE : ∀ e, ExprWf e → Tot (r.isSetE env e)
+
+theorem recTot_bottom (env : Env) : RecTot env Rec.bottom :=
+  ⟨fun _ _ => tot_outOfFuel, fun _ _ => tot_outOfFuel, fun _ _ => tot_outOfFuel⟩
+
+/-- closes `Tot` goals built from binds, ifs and matches over known pieces; stops at a crash site
+    that is not allowed -/
+macro "tot_step" : tactic => `(tactic| with_reducible (first
+  | assumption
+  | exact tot_pure _
+  | exact tot_unsupported _
+  | exact tot_errAt _ _
+  | exact tot_errPlain _
+  | exact tot_throwErr _
+  | exact tot_outOfFuel
+  | exact tot_crash _ (by decide)
+  | exact tot_liftOpt _ _
+  | exact tot_getRT
+  | exact tot_letVar _ _
+  | exact tot_letGlobal _ _
+  | exact tot_setValue _ _
+  | exact tot_newScope
+  | exact (totq_getBlock _).tot
+  | exact tot_resolve _ _
+  | exact tot_logE _
+  | exact tot_writeLit _
+  | exact tot_printEscaped _ _
+  | exact tot_printSafe _ _
+  | apply Tot.bind
+  | apply tot_withNewScopeD
+  | apply tot_withNewScopeND
+  | apply tot_withCtxND
+  | apply tot_withCtxD
+  | apply tot_withWriterD
+  | apply tot_liftP
+  | apply ptot_locateP
+  | exact ptot_convArg _ _ _
+  | exact ptot_parseIntoInt _
+  | exact ptot_apiName _
+  | exact ptot_lenOf _
+  | exact ptot_evalFieldPath _ _ _
+  | exact ptot_evalChainFields _ _
+  | exact ptot_evalAdditive _ _ _ _ _ _
+  | exact ptot_checkEquality _ _
+  | exact ptot_evalNumericComparative _ _ _ _
+  | exact ptot_resolveIndex _ _ _
+  | exact ptot_notNilP _
+  | exact ptot_isSetFieldPath _ _
+  | exact ptot_getSibling _ _ _
+  | exact ptot_getRanger _
+  | intro _))
+
+syntax "tot_tac" (" [" term,* "]")? : tactic
+macro_rules
+  | `(tactic| tot_tac) => `(tactic| repeat' (first | tot_step | split | dsimp only))
+  | `(tactic| tot_tac [$h0]) => `(tactic| repeat' (first | tot_step | (with_reducible apply $h0) | split | dsimp only))
+  | `(tactic| tot_tac [$h0, $h1]) => `(tactic| repeat' (first | tot_step | (with_reducible apply $h0) | (with_reducible apply $h1) | split | dsimp only))
+  | `(tactic| tot_tac [$h0, $h1, $h2]) => `(tactic| repeat' (first | tot_step | (with_reducible apply $h0) | (with_reducible apply $h1) | (with_reducible apply $h2) | split | dsimp only))
+  | `(tactic| tot_tac [$h0, $h1, $h2, $h3]) => `(tactic| repeat' (first | tot_step | (with_reducible apply $h0) | (with_reducible apply $h1) | (with_reducible apply $h2) | (with_reducible apply $h3) | split | dsimp only))
+
+variable {env : Env} {r : Rec}
+
+theorem tot_Args_exprAt (hr : RecTot env r) (a : Args) (hw : ExprsWf a.exprs) (j : Nat) :
+    Tot (a.exprAt r env j) := by
+  have he : ∀ e, e ∈ a.exprs → Tot (r.evalExpr env e) := fun e h => hr.evalExpr e (hw.mem e h)
+  unfold Args.exprAt
+  tot_tac [he]
+  all_goals exact List.mem_of_getElem? (by assumption)
+
+theorem tot_Args_get (hr : RecTot env r) (a : Args) (hw : ExprsWf a.exprs) (i : Nat) : Tot (a.get r env i) := by
+  have he := tot_Args_exprAt hr a hw
+  unfold Args.get
+  tot_tac [he]
+
+theorem tot_Args_isSetAt (hr : RecTot env r) (a : Args) (hw : ExprsWf a.exprs) (j : Nat) :
+    Tot (a.isSetAt r env j) := by
+  have he : ∀ e, e ∈ a.exprs → Tot (r.isSetE env e) := fun e h => hr.isSetE e (hw.mem e h)
+  unfold Args.isSetAt
+  tot_tac [he]
+  all_goals exact List.mem_of_getElem? (by assumption)
+
+theorem tot_Args_isSet (hr : RecTot env r) (a : Args) (hw : ExprsWf a.exprs) (i : Nat) : Tot (a.isSet r env i) := by
+  have he := tot_Args_isSetAt hr a hw
+  unfold Args.isSet
+  tot_tac [he]
+
+theorem Typed.snoc {sig : Sig} {l : List Val} {t : Ty} {x : Val} (h : Typed sig l)
+    (ht : sig.tyAt l.length = some t) (hx : TyOk t x) : Typed sig (l ++ [x]) := by
+  intro i v t' hi hti
+  rcases Nat.lt_trichotomy i l.length with hlt | heq | hgt
+  · rw [List.getElem?_append_left hlt] at hi
+    exact h i v t' hi hti
+  · subst heq
+    simp at hi
+    subst hi
+    rw [ht] at hti
+    cases hti
+    exact hx
+  · rw [List.getElem?_eq_none_iff.mpr (by simp; omega)] at hi
+    cases hi
+
+theorem tyAt_none {sig : Sig} {slot : Nat} (h : sig.tyAt slot = none) :
+    sig.variadic = none ∧ sig.params.length ≤ slot := by
+  unfold Sig.tyAt at h
+  split at h
+  · cases h
+  · rename_i hn
+    exact ⟨h, List.getElem?_eq_none_iff.mp hn⟩
+
+/-- the argument loop: `unreachable: too many arguments` is excluded by the arity test of
+    `evaluateArgs`, `nil pointer dereference (no piped value)` by its slot test; every argument
+    it returns has been converted to its parameter's type -/
+theorem totq_evalArgsLoop (hr : RecTot env r) (sig : Sig) (a : Args) :
+    ∀ (es : List Expr) (slot : Nat) (acc : List Val), ExprsWf es →
+      (∀ e ∈ es, isUnderscore e = true → a.piped.isSome = true) →
+      (sig.variadic.isSome = true ∨ slot + es.length ≤ sig.params.length) →
+      acc.length = slot → Typed sig acc.reverse →
+      TotQ (fun res => ∀ args, res = .ok args → Typed sig args) (evalArgsLoop r env sig a es slot acc) := by
+  intro es
+  induction es with
+  | nil =>
+    intro slot acc _ _ _ _ hty
+    unfold evalArgsLoop
+    exact totq_pure _ (fun args h => by cases h; exact hty)
+  | cons e rest ih =>
+    intro slot acc hw hp har hlen hty
+    rw [ExprsWf] at hw
+    unfold evalArgsLoop
+    cases ht : sig.tyAt slot with
+    | none =>
+      exfalso
+      obtain ⟨h1, h2⟩ := tyAt_none ht
+      rcases har with har | har
+      · rw [h1] at har; cases har
+      · simp at har; omega
+    | some t =>
+      dsimp only
+      have hv : Tot (if isUnderscore e = true then
+            match a.piped with
+            | some p => pure p
+            | none => crash "nil pointer dereference (no piped value)"
+          else r.evalExpr env e) := by
+        split
+        · rename_i hu
+          have := hp e List.mem_cons_self hu
+          cases hpi : a.piped with
+          | none => rw [hpi] at this; cases this
+          | some p => exact tot_pure _
+        · exact hr.evalExpr e hw.1
+      refine TotQ.bind hv fun v _ => ?_
+      refine TotQ.bind (totq_liftP (Q := fun res => ∀ x, res = .ok x → TyOk t x) _ (ptot_convArg _ _ _)
+        (fun res hres x hx => by subst hx; exact convArg_typed _ _ _ _ hres)) fun res hres => ?_
+      cases res with
+      | error m => exact totq_pure _ (fun args h => by cases h)
+      | ok x =>
+        dsimp only
+        refine ih (slot + 1) (x :: acc) hw.2 (fun e' he' => hp e' (List.mem_cons_of_mem _ he')) ?_ (by simp [hlen]) ?_
+        · rcases har with har | har
+          · exact Or.inl har
+          · right; simp at har; omega
+        · rw [List.reverse_cons]
+          exact hty.snoc (by rw [List.length_reverse, hlen]; exact ht) (hres x rfl)
+
+variable {env : Env} {r : Rec}
+
+theorem any_of_mem {es : List Expr} {e : Expr} (h : e ∈ es) (hu : isUnderscore e = true) :
+    es.any isUnderscore = true := List.any_eq_true.mpr ⟨e, h, hu⟩
+
+theorem typed_nil (sig : Sig) : Typed sig [] := by
+  intro i v t hi; simp at hi
+
+/-- `evaluateArgs` -/
+theorem totq_evaluateArgs (hr : RecTot env r) (sig : Sig) (a : Args) (hw : ExprsWf a.exprs)
+    (hs : SlotOk a.exprs a.hasSlot) :
+    TotQ (fun res => ∀ args, res = .ok args → Typed sig args) (evaluateArgs r env sig a) := by
+  have hl := totq_evalArgsLoop hr sig a
+  unfold evaluateArgs
+  split
+  · exact totq_pure _ (fun args h => by cases h)
+  · rename_i hguard
+    dsimp only
+    split
+    · exact totq_pure _ (fun args h => by cases h)
+    · rename_i har
+      have hp : ∀ e ∈ a.exprs, isUnderscore e = true → a.piped.isSome = true := by
+        intro e he hu
+        have := hs (any_of_mem he hu)
+        cases hpi : a.piped with
+        | none => simp [this, hpi] at hguard
+        | some p => rfl
+      have harity : sig.variadic.isSome = true ∨ a.num = sig.params.length := by
+        cases hv : sig.variadic with
+        | none => right; simp [hv] at har; exact har
+        | some t => left; rfl
+      split
+      · rename_i p hpi hsl
+        cases ht : sig.tyAt 0 with
+        | none =>
+          exfalso
+          obtain ⟨h1, h2⟩ := tyAt_none ht
+          rcases harity with h | h
+          · rw [h1] at h; cases h
+          · simp [Args.num, hpi, hsl] at h; omega
+        | some t =>
+          dsimp only
+          refine TotQ.bind (totq_liftP (Q := fun res => ∀ x, res = .ok x → TyOk t x) _ (ptot_convArg _ _ _)
+            (fun res hres x hx => by subst hx; exact convArg_typed _ _ _ _ hres)) fun res hres => ?_
+          cases res with
+          | error m => exact totq_pure _ (fun args h => by cases h)
+          | ok x =>
+            dsimp only
+            refine hl a.exprs 1 [x] hw hp ?_ rfl ?_
+            · rcases harity with h | h
+              · exact Or.inl h
+              · right; simp [Args.num, hpi, hsl] at h; omega
+            · exact (typed_nil sig).snoc (t := t) ht (hres x rfl)
+      · rename_i hne
+        refine hl a.exprs 0 [] hw hp ?_ rfl (typed_nil sig)
+        rcases harity with h | h
+        · exact Or.inl h
+        · right
+          unfold Args.num at h
+          split at h
+          · rename_i hc
+            exfalso
+            cases hpi : a.piped with
+            | none => simp [hpi] at hc
+            | some p =>
+              cases hsl : a.hasSlot with
+              | true => simp [hsl] at hc
+              | false => exact hne p hpi hsl
+          · omega
+
+theorem tot_issetLoop (hr : RecTot env r) (a : Args) (hw : ExprsWf a.exprs) : ∀ f i, Tot (issetLoop r env a f i) := by
+  have hs := tot_Args_isSet hr a hw
+  intro f
+  induction f with
+  | zero => intro i; unfold issetLoop; tot_tac
+  | succ f ih => intro i; unfold issetLoop; tot_tac [hs, ih]
+
+theorem tot_sliceLoop (hr : RecTot env r) (a : Args) (hw : ExprsWf a.exprs) : ∀ f i acc, Tot (sliceLoop r env a f i acc) := by
+  have hg := tot_Args_get hr a hw
+  intro f
+  induction f with
+  | zero => intro i acc; unfold sliceLoop; tot_tac
+  | succ f ih => intro i acc; unfold sliceLoop; tot_tac [hg, ih]
+
+theorem tot_mapLoop (hr : RecTot env r) (a : Args) (hw : ExprsWf a.exprs) : ∀ f i acc, Tot (mapLoop r env a f i acc) := by
+  have hg := tot_Args_get hr a hw
+  intro f
+  induction f with
+  | zero => intro i acc; unfold mapLoop; tot_tac
+  | succ f ih => intro i acc; unfold mapLoop; tot_tac [hg, ih]
+
+theorem tot_recLoop (hr : RecTot env r) (a : Args) (hw : ExprsWf a.exprs) : ∀ f i acc, Tot (recLoop r env a f i acc) := by
+  have hg := tot_Args_get hr a hw
+  intro f
+  induction f with
+  | zero => intro i acc; unfold recLoop; tot_tac
+  | succ f ih => intro i acc; unfold recLoop; tot_tac [hg, ih]
+
+theorem tot_execBuiltin (he : EnvWf env) (hr : RecTot env r) (isExec : Bool) (a : Args) (hw : ExprsWf a.exprs) :
+    Tot (execBuiltin r env isExec a) := by
+  have hg := tot_Args_get hr a hw
+  have hl := hr.execList
+  have hb := tot_setBlocks
+  unfold execBuiltin
+  tot_tac [hg, hl, hb]
+  all_goals first
+    | exact (canonicalOf_wf he _ _ _ (by assumption)).blocks
+    | exact (rootOf_wf he _ _ _ (canonicalOf_wf he _ _ _ (by assumption)) (by assumption)).root
+
+theorem tot_yieldBlockApi (hr : RecTot env r) (name : Bytes) (ctx : Val) : Tot (yieldBlockApi r env name ctx) := by
+  have hl := hr.execList
+  unfold yieldBlockApi
+  refine TotQ.bind (totq_getBlock name) fun o ho => ?_
+  cases o with
+  | none => exact tot_errPlain _
+  | some blk =>
+    have := (ho blk rfl).body
+    dsimp only
+    tot_tac [hl]
+
+theorem tot_recsetLoop (hr : RecTot env r) (a : Args) (hw : ExprsWf a.exprs) :
+    ∀ fuel i acc, Tot (recsetLoop r env a fuel i acc) := by
+  have hs := tot_Args_isSet hr a hw
+  intro fuel
+  induction fuel with
+  | zero => intro i acc; unfold recsetLoop; tot_tac
+  | succ f ih => intro i acc; unfold recsetLoop; tot_tac [hs, ih]
+
+theorem tot_parse3Func (hr : RecTot env r) (a : Args) (hw : ExprsWf a.exprs) : Tot (parse3Func r env a) := by
+  have hg := tot_Args_get hr a hw
+  unfold parse3Func
+  tot_tac [hg]
+
+theorem tot_applyApiFunc (hr : RecTot env r) (id : String) (a : Args) (hw : ExprsWf a.exprs) :
+    Tot (applyApiFunc r env id a) := by
+  have hg := tot_Args_get hr a hw
+  have hy := tot_yieldBlockApi hr
+  have hrs := tot_recsetLoop hr a hw
+  have hp := tot_parse3Func hr a hw
+  unfold applyApiFunc
+  dsimp only
+  tot_tac [hg, hy, hrs, hp]
+
+set_option maxHeartbeats 1600000 in
+theorem tot_applyJetFunc (he : EnvWf env) (hr : RecTot env r) (id : String) (a : Args) (hw : ExprsWf a.exprs) :
+    Tot (applyJetFunc r env id a) := by
+  have hg := tot_Args_get hr a hw
+  have h1 := tot_issetLoop hr a hw
+  have h2 := tot_sliceLoop hr a hw
+  have h3 := tot_mapLoop hr a hw
+  have h4 := tot_recLoop hr a hw
+  have h5 : ∀ b, Tot (execBuiltin r env b a) := fun b => tot_execBuiltin he hr b a hw
+  have h6 : ∀ id, Tot (applyApiFunc r env id a) := fun id => tot_applyApiFunc hr id a hw
+  unfold applyJetFunc
+  dsimp only
+  repeat' (first | split | tot_step | (with_reducible apply hg) | (with_reducible apply h1) | (with_reducible apply h2) | (with_reducible apply h3) | (with_reducible apply h4) | (with_reducible apply h5) | (with_reducible apply h6))
+
+/-- `unreachable: call of non-func`: every caller has tested the kind -/
+theorem totq_callValue (he : EnvWf env) (hr : RecTot env r) (fn : Val) (a : Args) (hk : kindIsFunc fn = true)
+    (hw : ExprsWf a.exprs) (hs : SlotOk a.exprs a.hasSlot) : Tot (callValue r env fn a) := by
+  have h1 := tot_applyJetFunc he hr
+  have h3 : ∀ logs : List LogE, Tot (modifyRT fun rt => { rt with log := logs.reverse ++ rt.log }) :=
+    fun logs => tot_modify_log (fun l => logs.reverse ++ l)
+  cases fn <;> try (simp [kindIsFunc] at hk; done)
+  · -- func
+    rename_i id
+    unfold callValue
+    dsimp only
+    split
+    · exact tot_unsupported _
+    · rename_i sig hsig
+      refine TotQ.bind (totq_evaluateArgs hr sig a hw hs) fun res hres => ?_
+      cases res with
+      | error m => exact tot_pure _
+      | ok args =>
+        dsimp only
+        refine Tot.bind (tot_liftP _ (ptot_applyGoFunc id args
+          (fun sig' h' => by rw [hsig] at h'; cases h'; exact hres args rfl))) fun x => ?_
+        tot_tac [h3]
+  · -- jfunc
+    rename_i id
+    unfold callValue
+    dsimp only
+    exact Tot.bind (h1 id a hw) fun v => tot_pure _
+  · unfold callValue; exact tot_unsupported _
+  · -- method
+    rename_i name recv
+    unfold callValue
+    dsimp only
+    split
+    · exact tot_unsupported _
+    · rename_i sig hsig
+      refine TotQ.bind (totq_evaluateArgs hr sig a hw hs) fun res hres => ?_
+      cases res with
+      | error m => exact tot_pure _
+      | ok args =>
+        dsimp only
+        refine Tot.bind (tot_liftP _ (ptot_applyMethod name recv args
+          (fun sig' h' => by rw [hsig] at h'; cases h'; exact hres args rfl))) fun x => tot_pure _
+
+theorem tot_callAt (he : EnvWf env) (hr : RecTot env r) (loc : Loc) (fn : Val) (a : Args) (hk : kindIsFunc fn = true)
+    (hw : ExprsWf a.exprs) (hs : SlotOk a.exprs a.hasSlot) : Tot (callAt r env loc fn a) := by
+  have h1 := totq_callValue he hr fn a hk hw hs
+  unfold callAt
+  tot_tac [h1]
+
 end JetVerif.Eval
